@@ -413,6 +413,32 @@ func init() {
 					c29Enum("W", b[0], b[1], 2, emit)
 				}
 			}
+			// size class: ONE operation removes many (17..80) entries: Purge of a large cache, Resize far
+			// down, one heavy Add / ContainsOrAdd / PeekOrAdd pushing out many light entries; every
+			// removed entry must reach the callback exactly once, in order
+			for _, impl := range []string{"W", "S", "Wn"} {
+				for _, cnt := range []int{16, 17, 18, 33, 80} {
+					for wi, wgt := range []string{"1", "0"} {
+						enders := [][]string{{"PU"}, {"Z", "2", "3"}, {"Z", "100", "1"}, {"Z", "0", "0"}, {"A", "999", "7", "100"}, {"A", "999", "7", "99"}, {"A", "5", "8", "97"}}
+						if impl != "S" {
+							enders = append(enders, []string{"CA", "999", "7", "100"}, []string{"PA", "999", "7", "98"})
+						}
+						if wi == 1 {
+							enders = [][]string{{"PU"}, {"Z", "100", "1"}, {"Z", "0", "0"}, {"Z", "100", "-1"}}
+						}
+						for _, e := range enders {
+							in := []string{impl, "100", "100"}
+							for k := 1; k <= cnt; k++ {
+								in = append(in, ";", "A", strconv.Itoa(k), strconv.Itoa(1000+k), wgt)
+							}
+							in = append(in, ";", "G", "3", ";")
+							in = append(in, e...)
+							in = append(in, ";", "K", ";", "A", "1", "1", "1", ";", "PU")
+							emit(in...)
+						}
+					}
+				}
+			}
 			// values that are nil / zero: presence must be decided by the key, never by the value
 			nilAlpha := [][]string{{"A", "0", "nil", "1"}, {"A", "0", "7", "1"}, {"A", "1", "nil", "0"}, {"A", "1", "0", "2"}, {"PA", "0", "9", "1"},
 				{"PA", "0", "nil", "2"}, {"PA", "1", "es", "1"}, {"CA", "0", "8", "1"}, {"CA", "1", "nil", "1"}, {"P", "0"}, {"G", "0"}, {"R", "0"}}
